@@ -376,7 +376,7 @@ def tree_fails(t, bindings, which=ALL_KINDS, count=_nocount, order_seed=0, via_s
                         break
                     if left and residual_for_reparse is None:
                         rest = {n: b[n] for n in names if n not in bound}
-                        residual_for_reparse = (r, rest, want)
+                        residual_for_reparse = (r, rest)
             if bad is None:
                 got = as_exact(r)
                 count("partial_compared")
@@ -386,6 +386,7 @@ def tree_fails(t, bindings, which=ALL_KINDS, count=_nocount, order_seed=0, via_s
                     bad = Fail("partial", "wrong-value", binding={"order": order, **b}, got=r, want=want)
             if bad is not None:
                 fails.append(bad)
+                residual_for_reparse = None  # the chain itself is wrong: one root cause
                 break
 
     # ---- print -> parse ---------------------------------------------------------------------------
@@ -396,8 +397,14 @@ def tree_fails(t, bindings, which=ALL_KINDS, count=_nocount, order_seed=0, via_s
         if "print-parse" in which:
             fails.extend(pp)
             if text_ok and residual_for_reparse is not None:
-                r, rest, want = residual_for_reparse
-                fails.extend(reparse_fails(r, [(rest, want)], "residual", count))
+                # the residual's text must denote what the residual itself evaluates to
+                r, rest = residual_for_reparse
+                try:
+                    own = as_exact(r.evaluate(rest))
+                except Exception:  # noqa: BLE001 - judged by the partial monitor
+                    own = None
+                if own is not None:
+                    fails.extend(reparse_fails(r, [(rest, own)], "residual", count))
 
     # ---- simplify ---------------------------------------------------------------------------------
     if "simplify" in which:
@@ -544,54 +551,38 @@ def _reparse_value(text, b):
         return None
 
 
-def explained_by_literal_grammar(text: str, pairs) -> bool:
-    """``pairs``: (bindings, standard value or None).  True iff the library gives ``text`` exactly
-    the value of the documented productions read literally (unary minus tighter than '**') under
-    every binding, and that differs from the standard meaning under at least one."""
-    differs = False
-    for b, std in pairs:
-        if std is None:
-            continue  # out of domain or too large in the standard reading: never handed to the library
-        try:
-            lit = G.literal_grammar_value(text, b)
-        except (G.OutOfDomain, G.TooLarge):
-            lit = None
-        except (G.NotInGrammar, KeyError):
-            return False
-        if _reparse_value(text, b) != lit:
-            return False
-        if lit != std:
-            differs = True
-    return differs
-
-
-def explained_by_minus_power_counterfactual(pytext: str, names: dict[str, str], pairs) -> bool:
-    """``pairs``: (bindings, value the text should have, or None).  True iff the text has a power
-    directly under a unary minus and the library handles the text correctly under every binding
-    once exactly those powers are parenthesised (``-a ** b`` -> ``-(a ** b)``)."""
+def _outcome(fn):
+    """What a computation produced, comparable between the library and the SymPy twin: a
+    Fraction, None (non-numeric result) or ('raises', exception type name)."""
     try:
-        tree = G.python_meaning(pytext, funcs=G.FUNCS_ALLOWED + G.FUNCS_DIAGNOSTIC)
-        fixed, changed = G.parenthesise_power_under_minus(tree)
-    except Exception:  # noqa: BLE001 - naming only
-        return False
-    if not changed:
-        return False
-    real = G.real_text_from_python(fixed, names)
-    checked = 0
-    for b, want in pairs:
-        if want is None:
-            continue
-        checked += 1
-        if _reparse_value(real, b) != want:
-            return False
-    return checked > 0
+        return fn()
+    except Exception as exc:  # noqa: BLE001 - Slow is a BaseException and passes through
+        return ("raises", type(exc).__name__)
 
 
-def is_unary_minus_power(text: str, pairs) -> bool:
-    if explained_by_literal_grammar(text, pairs):
-        return True
-    pytext, names = G.alias_text(text.strip(), set().union(*[set(b) for b, _ in pairs]))
-    return explained_by_minus_power_counterfactual(pytext, names, pairs)
+def sympy_label(kinds, outcomes) -> str:
+    """Stable label of a disagreement that SymPy itself reproduces: the exception SymPy raises, or
+    the most specific evaluating function present (Mod > floor/ceil/trunc > max > min)."""
+    for o in outcomes:
+        if isinstance(o, tuple):
+            return f"raises-{o[1]}"
+    kinds = {root_class(k) for k in kinds}
+    for k in ("Mod", "rounding", "max", "min"):
+        if k in kinds:
+            return k
+    return "+".join(sorted(kinds)) or "arithmetic"
+
+
+def ast_kinds(node) -> set[str]:
+    out = set()
+    for n in ast.walk(node):
+        if isinstance(n, ast.BinOp):
+            out.add(G._OPNAME[type(n.op)])
+        elif isinstance(n, ast.UnaryOp):
+            out.add("neg")
+        elif isinstance(n, ast.Call):
+            out.add(n.func.id)
+    return out
 
 
 def _std_values(pytext, names, bindings, funcs=G.FUNCS_ALLOWED + G.FUNCS_DIAGNOSTIC):
@@ -626,19 +617,16 @@ def _shrink_text(pytext: str, names: dict[str, str], bindings):
     return small, G.ast_shape(small), ptxt, G.real_text_from_python(ptxt, names)
 
 
-def sympy_agrees_text(node, names, bindings, arith: str | None = None) -> bool:
-    """Attribution: does SymPy itself, given the faithful translation of the standard reading,
-    produce what the library produced (and is that wrong under some binding)?"""
-    try:
-        expr = T.from_ast(node, names)
-        if arith:
-            expr = T.ARITH[arith](expr)
-    except Exception:  # noqa: BLE001
-        return False
-    ptxt = ast.unparse(node)
-    real = G.real_text_from_python(ptxt, names)
+def sympy_verdict_text(node, names, bindings, arith: str | None = None, real: str | None = None) -> str | None:
+    """Attribution: does plain SymPy, given the faithful translation of the *standard reading* of
+    the text, produce exactly what the library produced (value, non-numeric result or exception
+    type) under every binding in domain, and is that wrong under at least one?  Returns the
+    stable label, or None when the library and SymPy disagree (a defect of the library itself)."""
+    twin_build = _outcome(lambda: T.ARITH[arith](T.from_ast(node, names)) if arith else T.from_ast(node, names))
+    if real is None:
+        real = G.real_text_from_python(ast.unparse(node), names)
     alias_of = {r: a for a, r in names.items()}
-    wrong = False
+    wrong = []
     for b in bindings:
         env = {alias_of[k]: Fraction(v) for k, v in b.items() if k in alias_of}
         try:
@@ -647,45 +635,42 @@ def sympy_agrees_text(node, names, bindings, arith: str | None = None) -> bool:
                 std = _ARITH_EXACT[arith](std)
         except (G.OutOfDomain, G.TooLarge, KeyError):
             continue
-        try:
+
+        def lib_value(b=b):
             d = ir.SymbolicDim(real)
             if arith:
                 d = _ARITH_REAL[arith](d)
-            lib = as_exact(d.evaluate(b))
-        except Exception:  # noqa: BLE001
-            lib = None
-        try:
-            twin = T.value(expr, b)
-        except Exception:  # noqa: BLE001
-            twin = None
+            return as_exact(d.evaluate(b))
+
+        lib = _outcome(lib_value)
+        twin = twin_build if isinstance(twin_build, tuple) else _outcome(lambda b=b: T.value(twin_build, b))
         if twin != lib:
-            return False
+            return None
         if lib != std:
-            wrong = True
-    return wrong
+            wrong.append(lib)
+    if not wrong:
+        return None
+    return sympy_label(ast_kinds(node) | ({arith} if arith else set()), wrong)
 
 
 def name_text_disagreement(text, pytext, names, bindings) -> tuple[str, str | None]:
-    """Mechanism name for 'the library's value of ``text`` differs from Python's reading'."""
-    tree, stds = _std_values(pytext, names, bindings, funcs=G.FUNCS_ALLOWED + G.FUNCS_DIAGNOSTIC)
-    pairs = [(b, s) for b, s in zip(bindings, stds)]
-    if explained_by_literal_grammar(text, pairs) or explained_by_minus_power_counterfactual(pytext, names, pairs):
-        return "unary-minus-power", None
+    """Mechanism name for 'the library's value of ``text`` differs from Python's reading'.
+    SymPy's own behaviour is recognised first (stable label); only a genuine library-vs-SymPy
+    disagreement is shrunk and named by the operator skeleton of its minimal witness."""
+    tree = G.python_meaning(pytext, funcs=G.FUNCS_ALLOWED + G.FUNCS_DIAGNOSTIC)
+    label = sympy_verdict_text(tree.body, names, bindings, real=text)
+    if label:
+        return f"same-in-sympy:{label}", None
     try:
         small, shape, sptxt, sreal = _shrink_text(pytext, names, bindings)
     except Exception:  # noqa: BLE001 - naming only
         return "unshrunk", None
+    label = sympy_verdict_text(small, names, bindings)
+    if label:
+        return f"same-in-sympy:{label}", sreal
     named = G.mechanism_name(shape)
     if named != shape:
         return named, sreal
-    if explained_by_literal_grammar(sreal, list(zip(bindings, _std_values(sptxt, names, bindings)[1]))):
-        return "unary-minus-power", sreal
-    if sympy_agrees_text(small, names, bindings):
-        return f"same-in-sympy:{root_class(shape.split('(')[0])}", sreal
-    exc_name = sympy_text_raises(small, names)
-    if exc_name:
-        # plain SymPy raises while auto-evaluating the faithfully translated expression
-        return f"same-in-sympy:raises-{exc_name}", sreal
     # does the failure depend on the spelling (whitespace, leading zeros, identifier form)?
     normal = ast.unparse(tree)
     if not string_fails(G.real_text_from_python(normal, names), normal, names, bindings, extras=False):
@@ -701,7 +686,7 @@ def name_text_disagreement(text, pytext, names, bindings) -> tuple[str, str | No
 
 
 def classify_printed_text(text: str, pairs) -> tuple[str, str, str | None]:
-    """A printed text parses but evaluates differently from the dimension it was printed from
+    """A printed text does not parse back to the evaluations of the dimension it was printed from
     (``pairs``: (bindings, value of the dimension)).  Is the text wrong (Python's reading of it
     differs from the dimension) or does the parser misread a correct text?"""
     bindings = [b for b, _ in pairs]
@@ -721,61 +706,45 @@ def _partial_order(names: list[str], k: int) -> list[str]:
     return [order.pop(k % len(order)) for _ in range(len(order))] if order else order
 
 
-def sympy_text_raises(node, names) -> str | None:
-    """Name of the exception plain SymPy raises for the faithfully translated expression, if it is
-    one of SymPy's internal failures (unbounded recursion, failed internal assertion)."""
-    try:
-        T.from_ast(node, names)
-    except (RecursionError, AssertionError) as e:
-        return type(e).__name__
-    except Exception:  # noqa: BLE001
-        return None
-    return None
+def sympy_verdict_tree(t, bindings, kind: str, order_seed: int) -> str | None:
+    """Same attribution for a tree: the faithful SymPy translation is built, (simplified,)
+    substituted (in the same partial order) and compared with what the library did."""
+    twin_build = _outcome(lambda: T.simplified(T.from_tree(t)) if kind == "simplify" else T.from_tree(t))
 
-
-def sympy_build_raises_recursion(t) -> bool:
-    try:
-        T.from_tree(t)
-    except RecursionError:
-        return True
-    except Exception:  # noqa: BLE001
-        return False
-    return False
-
-
-def sympy_agrees_tree(t, bindings, kind: str, order_seed: int) -> bool:
-    try:
-        expr = T.from_tree(t)
+    def lib_build():
         e = X.build_real(t, ir.SymbolicDim)
-        if kind == "simplify":
-            expr = T.simplified(expr)
-            e = e.simplify()
-    except Exception:  # noqa: BLE001
-        return False
-    wrong = False
+        return e.simplify() if kind == "simplify" else e
+
+    try:
+        e = lib_build()
+    except (X.NotBuildable, X.UnsupportedReflected):
+        return None
+    except Exception as exc:  # noqa: BLE001
+        e = ("raises", type(exc).__name__)
+    wrong = []
     for bi, b in enumerate(bindings):
         try:
             want = X.exact(t, b)
         except G.OutOfDomain:
             continue
         order = _partial_order(sorted(b), order_seed + bi) if kind == "partial" else None
-        try:
+
+        def lib_value(b=b, order=order):
             r = e
             for s_ in order or []:
                 if isinstance(r, ir.SymbolicDim):
                     r = r.evaluate({s_: b[s_]})
-            lib = as_exact(r.evaluate(b) if isinstance(r, ir.SymbolicDim) else r)
-        except Exception:  # noqa: BLE001
-            lib = None
-        try:
-            twin = T.value(expr, b, order)
-        except Exception:  # noqa: BLE001
-            twin = None
+            return as_exact(r.evaluate(b) if isinstance(r, ir.SymbolicDim) else r)
+
+        lib = e if isinstance(e, tuple) else _outcome(lib_value)
+        twin = twin_build if isinstance(twin_build, tuple) else _outcome(lambda b=b, order=order: T.value(twin_build, b, order))
         if twin != lib:
-            return False
+            return None
         if lib != want:
-            wrong = True
-    return wrong
+            wrong.append(lib)
+    if not wrong:
+        return None
+    return sympy_label(X.op_kinds(t), wrong)
 
 
 def _floor_printed_as_identity(t, bindings) -> str | None:
@@ -841,6 +810,17 @@ def _name_tree_failure(t, bindings, f, order_seed, via_shape):
     elif f.stage == "residual":
         which = ("partial", "print-parse")
     costly = "simplify" in which
+    twin_kind = f.kind if f.kind in ("partial", "simplify") else "eval"
+
+    # 1. SymPy's own behaviour first, on the witness as found: a stable label, no shapes
+    if f.kind in ("eval", "partial", "simplify", "build", "shape", "serde"):
+        label = sympy_verdict_tree(t, bindings, twin_kind, order_seed)
+        if label:
+            detail = "plain SymPy does the same with the faithfully translated expression"
+            culprit = _floor_printed_as_identity(t, bindings) if not label.startswith("raises") else None
+            if culprit:
+                detail += f"; floor({culprit}) is printed as {culprit} although its value is not an integer"
+            return f"{f.kind}|same-in-sympy:{label}", t, f, detail
 
     def same(cand, _key=f.key, _which=which):
         got = tree_fails(cand, bindings, _which, _nocount, order_seed, via_shape)
@@ -863,9 +843,12 @@ def _name_tree_failure(t, bindings, f, order_seed, via_shape):
             # one mechanism whatever else the text contains: SymPy prints a Piecewise (with Eq/True
             # conditions and tuple arguments), which is outside the expression grammar altogether
             sig = "print-parse|unparseable:Piecewise"
-        if not names and w.want is not None and is_unary_minus_power(w.text, [(w.binding, w.want)]):
-            # every function is known to the parser; it fails because it reads '-a**b' as '(-a)**b'
-            sig = f"print-parse|parser-misreads|unary-minus-power{stage}"
+        elif not names and w.want is not None:
+            # every function is known to the parser, yet reading the text back raises: is that
+            # what plain SymPy does with the standard reading of the text?
+            label = _printed_text_sympy_label(w.text, [(w.binding, w.want)])
+            if label:
+                sig = f"print-parse|same-in-sympy:{label}{stage}"
     elif w.kind == "print-parse" and w.cls == "value-changed":
         cls, mech, minimal = classify_printed_text(w.text, [(w.binding, w.want)])
         if cls != "parser-misreads":
@@ -875,18 +858,22 @@ def _name_tree_failure(t, bindings, f, order_seed, via_shape):
         sig = f"print-parse|{cls}|{mech}{stage}"
     else:
         sig = f"{w.kind}|{w.cls}|{X.shape(small)}{stage}"
-        if w.kind == "build" and w.cls.startswith("raises:RecursionError") and sympy_build_raises_recursion(small):
-            # SymPy itself recurses without bound while auto-evaluating the faithfully translated
-            # expression (e.g. Mod(2 - M, -K - 1) over positive integer symbols): one mechanism
-            sig = "build|same-in-sympy:raises-RecursionError"
-            detail = "plain SymPy raises RecursionError for the faithfully translated expression"
-        elif w.kind in ("eval", "partial", "simplify", "build") and sympy_agrees_tree(small, bindings, w.kind, order_seed):
-            sig = f"{w.kind}|same-in-sympy:{root_class(small[0])}"
-            culprit = _floor_printed_as_identity(small, bindings)
-            detail = "SymPy returns the same value for the faithfully translated expression"
-            if culprit:
-                detail += f"; floor({culprit}) is printed as {culprit} although its value is not an integer"
+        if w.kind in ("eval", "partial", "simplify", "build", "shape", "serde"):
+            label = sympy_verdict_tree(small, bindings, twin_kind, order_seed)
+            if label:
+                sig = f"{w.kind}|same-in-sympy:{label}"
+                detail = "plain SymPy does the same with the faithfully translated expression"
     return sig, small, w, detail
+
+
+def _printed_text_sympy_label(text, pairs) -> str | None:
+    bindings = [b for b, _ in pairs]
+    try:
+        pytext, names = G.alias_text(text, set().union(*[set(b) for b in bindings]))
+        tree = G.python_meaning(pytext, funcs=G.FUNCS_ALLOWED + G.FUNCS_DIAGNOSTIC)
+    except Exception:  # noqa: BLE001 - naming only
+        return None
+    return sympy_verdict_text(tree.body, names, bindings, real=text)
 
 
 def judge_tree(ctx, t, bindings, order_seed, via_shape, source, kinds=ALL_KINDS) -> None:
@@ -1053,24 +1040,25 @@ def _name_string_failure(text, pytext, names, bindings, f):
         if mech.startswith("same-in-sympy"):
             sig = f"grammar|{mech}"
         else:
-            cls = f.cls.split(":")[0] if mech == "unary-minus-power" else f.cls.split("(")[0]
-            sig = f"grammar|{cls}|{mech}"
+            sig = f"grammar|{f.cls.split('(')[0]}|{mech}"
     elif f.kind == "print-parse" and f.cls == "unparseable":
         fn = undocumented_functions(f.text or "")
         what = "+".join(fn) if fn else (_exc_class(f.got) if isinstance(f.got, BaseException) else "?")
         sig = f"print-parse|unparseable:{what}|stage=parsed-then-printed"
         if "Piecewise" in fn:
             sig = "print-parse|unparseable:Piecewise"
-        if not fn and f.want is not None and is_unary_minus_power(f.text, [(f.binding, f.want)]):
-            # every function is known to the parser; it fails because it reads '-a**b' as '(-a)**b'
-            sig = "print-parse|parser-misreads|unary-minus-power|stage=parsed-then-printed"
+        elif not fn and f.want is not None:
+            label = _printed_text_sympy_label(f.text, [(f.binding, f.want)])
+            if label:
+                sig = f"print-parse|same-in-sympy:{label}|stage=parsed-then-printed"
     elif f.kind == "print-parse" and f.cls == "value-changed":
         cls, mech, minimal = classify_printed_text(f.text, [(f.binding, f.want)])
         sig = f"print-parse|{cls}|{mech or 'unclassified'}|stage=parsed-then-printed"
     elif f.kind == "text-then-arith":
         tree = G.python_meaning(pytext)
-        if sympy_agrees_text(tree.body, names, bindings, arith=f.stage):
-            sig = f"text-then-arith|same-in-sympy:{root_class(f.stage)}"
+        label = sympy_verdict_text(tree.body, names, bindings, arith=f.stage, real=text)
+        if label:
+            sig = f"text-then-arith|same-in-sympy:{label}"
         else:
             sig = f"text-then-arith|{f.cls}|{f.stage}"
     else:
